@@ -1,4 +1,5 @@
 import BfeVerif.C24.Model
+import BfeVerif.C23.Proofs
 /-! Lemmas for C24 (core Lean only). -/
 namespace BfeVerif.C24
 open BfeVerif.C23 (Bytes splitLF)
@@ -56,5 +57,964 @@ theorem splitLF_append' : ∀ (l : Bytes) (r : Bytes), (∀ b ∈ l, b.toNat ≠
 theorem dropLastCR_append (l : Bytes) : dropLastCR (l ++ [13]) = l := by
   unfold dropLastCR
   simp
+
+/-! ### bytes -/
+
+theorem byte_all (P : UInt8 → Prop) (h : ∀ n, n < 256 → P (UInt8.ofNat n)) (b : UInt8) : P b := by
+  have := h b.toNat (UInt8.toNat_lt b)
+  simpa using this
+
+theorem eq_of_toNat (b : UInt8) (n : Nat) (hn : n < 256) (h : b.toNat = n) : b = UInt8.ofNat n := by
+  apply UInt8.toNat_inj.mp
+  rw [h]; simp; omega
+
+/-! ### trimming -/
+
+def ltrim (l : Bytes) : Bytes := l.dropWhile isSPHT
+def rtrim (l : Bytes) : Bytes := (l.reverse.dropWhile isSPHT).reverse
+
+theorem trim_eq (l : Bytes) : trim l = rtrim (ltrim l) := rfl
+
+theorem dropWhile_append_cons_not {α} (p : α → Bool) (u : List α) (x : α) (w : List α) (hx : p x = false) :
+    (u ++ x :: w).dropWhile p = u.dropWhile p ++ x :: w := by
+  induction u with
+  | nil => simp [hx]
+  | cons y t ih =>
+    by_cases hy : p y = true
+    · simp only [List.cons_append, List.dropWhile_cons, hy, if_true]; exact ih
+    · simp [hy]
+
+theorem dropWhile_append_single {α} (p : α → Bool) (u : List α) (b : α) :
+    (u ++ [b]).dropWhile p =
+      if u.dropWhile p = [] then (if p b = true then [] else [b]) else u.dropWhile p ++ [b] := by
+  induction u with
+  | nil => simp [List.dropWhile_cons]
+  | cons y t ih =>
+    by_cases hy : p y = true
+    · simp only [List.cons_append, List.dropWhile_cons, hy, if_true]; exact ih
+    · simp [hy]
+
+theorem dropWhile_idem {α} (p : α → Bool) (l : List α) : (l.dropWhile p).dropWhile p = l.dropWhile p := by
+  induction l with
+  | nil => rfl
+  | cons y t ih =>
+    by_cases hy : p y = true
+    · simp only [List.dropWhile_cons, hy, if_true]; exact ih
+    · simp [hy]
+
+theorem rtrim_append_cons (a : Bytes) (x : UInt8) (v : Bytes) (hx : isSPHT x = false) :
+    rtrim (a ++ x :: v) = a ++ x :: rtrim v := by
+  unfold rtrim
+  have : (a ++ x :: v).reverse = v.reverse ++ x :: a.reverse := by simp
+  rw [this, dropWhile_append_cons_not _ _ _ _ hx]
+  simp
+
+theorem rtrim_cons (b : UInt8) (w : Bytes) :
+    rtrim (b :: w) = if rtrim w = [] ∧ isSPHT b = true then [] else b :: rtrim w := by
+  unfold rtrim
+  rw [List.reverse_cons, dropWhile_append_single]
+  by_cases hd : List.dropWhile isSPHT w.reverse = []
+  · by_cases hb : isSPHT b = true <;> simp [hd, hb]
+  · simp [hd]
+
+theorem ltrim_rtrim_comm (v : Bytes) : ltrim (rtrim v) = rtrim (ltrim v) := by
+  induction v with
+  | nil => rfl
+  | cons b v' ih =>
+    rw [rtrim_cons]
+    by_cases hb : isSPHT b = true
+    · have hl : ltrim (b :: v') = ltrim v' := by simp [ltrim, hb]
+      rw [hl, ← ih]
+      by_cases hr : rtrim v' = []
+      · simp [hr, hb, ltrim]
+      · simp [hr, ltrim, hb]
+    · have hl : ltrim (b :: v') = b :: v' := by simp [ltrim, hb]
+      rw [hl, rtrim_cons]
+      simp [hb, ltrim]
+
+theorem rtrim_idem (v : Bytes) : rtrim (rtrim v) = rtrim v := by
+  unfold rtrim
+  rw [List.reverse_reverse, dropWhile_idem]
+
+theorem trim_idem (v : Bytes) : trim (trim v) = trim v := by
+  rw [trim_eq, trim_eq, ltrim_rtrim_comm]
+  have : ltrim (ltrim v) = ltrim v := dropWhile_idem _ _
+  rw [this, rtrim_idem]
+
+/-- the value as bfe computes it (trailing blanks went with the whole line, then leading blanks) is the
+    RFC field value (OWS removed on both sides) -/
+theorem value_agree (v : Bytes) : (rtrim v).dropWhile isSPHT = trim v := by
+  rw [trim_eq, ← ltrim_rtrim_comm]; rfl
+
+/-! ### splitAt1 -/
+
+theorem splitAt1_spec (c : Nat) : ∀ (l a b : Bytes), splitAt1 c l = some (a, b) →
+    ∃ x, x.toNat = c ∧ l = a ++ x :: b ∧ ∀ y ∈ a, y.toNat ≠ c := by
+  intro l
+  induction l with
+  | nil => intro a b h; simp [splitAt1] at h
+  | cons y t ih =>
+    intro a b h
+    simp only [splitAt1] at h
+    by_cases hy : y.toNat = c
+    · simp only [hy, if_true] at h
+      injection h with h; injection h with h1 h2
+      subst h1; subst h2
+      exact ⟨y, hy, by simp, by simp⟩
+    · simp only [hy, if_false] at h
+      cases hs : splitAt1 c t with
+      | none => simp [hs] at h
+      | some q =>
+        obtain ⟨a', b'⟩ := q
+        simp only [hs] at h
+        injection h with h; injection h with h1 h2
+        subst h1; subst h2
+        obtain ⟨x, hx, hl, hall⟩ := ih a' b' hs
+        refine ⟨x, hx, by rw [hl]; simp, ?_⟩
+        intro z hz
+        rcases List.mem_cons.mp hz with rfl | hz
+        · exact hy
+        · exact hall z hz
+
+theorem splitAt1_append (c : Nat) : ∀ (a : Bytes) (x : UInt8) (b : Bytes), x.toNat = c →
+    (∀ y ∈ a, y.toNat ≠ c) → splitAt1 c (a ++ x :: b) = some (a, b) := by
+  intro a
+  induction a with
+  | nil => intro x b hx _; simp [splitAt1, hx]
+  | cons y t ih =>
+    intro x b hx h
+    have hy := h y (by simp)
+    simp only [List.cons_append, splitAt1, hy, if_false]
+    rw [ih x b hx (fun z hz => h z (by simp [hz]))]
+
+/-! ### header block: RFC-syntactic fields are read identically by bfe's reader -/
+
+theorem readLine_of_rfcLine (s l r : Bytes) (h : rfcLine s = .ok (l, r)) : readLine s = some (l, r) := by
+  obtain ⟨hs, hall⟩ := rfcLine_shape s l r h
+  have hsp : C23.splitLF s = some (l ++ [13], r) := by
+    have : s = (l ++ [13]) ++ 10 :: r := by rw [hs]; simp
+    rw [this]
+    apply splitLF_append'
+    intro b hb
+    rcases List.mem_append.mp hb with hb | hb
+    · exact (hall b hb).1
+    · have : b = 13 := by simpa using hb
+      subst this; decide
+  unfold readLine
+  cases s with
+  | nil => simp at hs
+  | cons a t => simp only [hsp, dropLastCR_append]
+
+theorem tchar_not_spht (b : UInt8) : C23.isTchar b = true → isSPHT b = false := by
+  revert b; apply byte_all; decide +kernel
+
+theorem tchar_token (b : UInt8) : C23.isTchar b = true → isTokenByte b = true := by
+  revert b; apply byte_all; decide +kernel
+
+theorem canonLoop_length : ∀ (k : Bytes) (u : Bool), (canonLoop k u).length = k.length := by
+  intro k
+  induction k with
+  | nil => intro u; rfl
+  | cons c t ih => intro u; simp [canonLoop, ih]
+
+theorem canonKey_of_tchar (k : Bytes) (h : k.all C23.isTchar = true) : canonKey k = canonLoop k true := by
+  unfold canonKey
+  have : k.all isTokenByte = true := by
+    rw [List.all_eq_true] at h ⊢
+    exact fun b hb => tchar_token b (h b hb)
+  simp [this]
+
+theorem contLoop_stop (n : Nat) (acc r : Bytes) (h : (r.head?.map isSPHT).getD false = false) :
+    contLoop (n + 1) acc r = (acc, r) := by
+  cases r with
+  | nil => rfl
+  | cons b t =>
+    have : isSPHT b = false := by simpa using h
+    simp [contLoop, this]
+
+def canonF (p : Bytes × Bytes) : Field := ⟨canonKey p.1, p.2⟩
+def lowerF (p : Bytes × Bytes) : Field := ⟨asciiLower p.1, p.2⟩
+
+theorem fields_agree : ∀ (f : Nat) (first : Bool) (s : Bytes) (fs : List Field) (r' : Bytes),
+    rfcFields f first s = .ok (fs, r') →
+    ∃ raw : List (Bytes × Bytes), fs = raw.map lowerF ∧
+      (∀ p ∈ raw, p.1.length ≠ 0 ∧ p.1.all C23.isTchar = true ∧ trim p.2 = p.2) ∧
+      ∀ f2, s.length < f2 → readHeader f2 s = some (raw.map canonF, r') := by
+  intro f
+  induction f with
+  | zero => intro first s fs r' h; simp [rfcFields] at h
+  | succ f ih =>
+    intro first s fs r' h
+    rw [rfcFields] at h
+    by_cases h0 : (s.head?.map isSPHT).getD false = true
+    · simp [h0] at h
+    · simp only [h0] at h
+      cases hl : rfcLine s with
+      | error e => simp [hl] at h
+      | ok q =>
+        obtain ⟨line, r⟩ := q
+        simp only [hl] at h
+        have hrl := readLine_of_rfcLine s line r hl
+        obtain ⟨hshape, _⟩ := rfcLine_shape s line r hl
+        cases line with
+        | nil =>
+          simp only [] at h
+          injection h with h; injection h with h1 h2
+          subst h1; subst h2
+          refine ⟨[], rfl, by simp, ?_⟩
+          intro f2 hf2
+          cases f2 with
+          | zero => omega
+          | succ g => simp [readHeader, readContinued, hrl]
+        | cons b0 l0 =>
+          simp only [] at h
+          by_cases h1 : (r.head?.map isSPHT).getD false = true
+          · simp [h1] at h
+          · simp only [h1] at h
+            cases hsp : splitAt1 58 (b0 :: l0) with
+            | none => simp [hsp] at h
+            | some kv =>
+              obtain ⟨k, v⟩ := kv
+              simp only [hsp] at h
+              by_cases hk0 : k.length = 0
+              · simp [hk0] at h
+              · simp only [hk0, if_false] at h
+                by_cases hkl : (k.getLast?.map isSPHT).getD false = true
+                · simp [hkl] at h
+                · simp only [hkl] at h
+                  by_cases hkt : k.all C23.isTchar = true
+                  · simp only [hkt, not_true_eq_false, if_false] at h
+                    by_cases hvv : v.all isFieldVchar = true
+                    · simp only [hvv, not_true_eq_false, if_false] at h
+                      cases hrec : rfcFields f false r with
+                      | error e => simp [hrec] at h
+                      | ok q2 =>
+                        obtain ⟨fs0, r0⟩ := q2
+                        simp only [hrec] at h
+                        injection h with h; injection h with h2 h3
+                        subst h2; subst h3
+                        obtain ⟨raw0, hfs0, hraw0, hread0⟩ := ih false r fs0 r0 hrec
+                        refine ⟨(k, trim v) :: raw0, by simp [lowerF, hfs0], ?_, ?_⟩
+                        · intro p hp
+                          rcases List.mem_cons.mp hp with rfl | hp
+                          · exact ⟨hk0, hkt, trim_idem v⟩
+                          · exact hraw0 p hp
+                        · intro f2 hf2
+                          cases f2 with
+                          | zero => omega
+                          | succ g =>
+                            obtain ⟨x, hx, hline, hnoc⟩ := splitAt1_spec 58 _ _ _ hsp
+                            have hx58 : isSPHT x = false := by
+                              unfold isSPHT; simp [hx]
+                            -- trim of the whole line
+                            have hk : ∃ k0 k', k = k0 :: k' := by
+                              cases k with
+                              | nil => simp at hk0
+                              | cons k0 k' => exact ⟨k0, k', rfl⟩
+                            obtain ⟨k0, k', hkk⟩ := hk
+                            have hk0t : isSPHT k0 = false := by
+                              apply tchar_not_spht
+                              rw [List.all_eq_true] at hkt
+                              exact hkt k0 (by rw [hkk]; simp)
+                            have htrim : trim (b0 :: l0) = k ++ x :: rtrim v := by
+                              rw [hline, trim_eq]
+                              have : ltrim (k ++ x :: v) = k ++ x :: v := by
+                                rw [hkk]; simp [ltrim, hk0t]
+                              rw [this, rtrim_append_cons _ _ _ hx58]
+                            have hlen : r.length < g := by
+                              have := congrArg List.length hshape
+                              simp at this; omega
+                            have hcont : readContinued s = some (k ++ x :: rtrim v, r) := by
+                              simp only [readContinued, hrl]
+                              have : ¬ ((b0 :: l0).length = 0) := by simp
+                              simp only [this, if_false]
+                              rw [contLoop_stop _ _ _ (by simpa using h1), htrim]
+                            have hkey : (canonKey k).length ≠ 0 := by
+                              rw [canonKey_of_tchar k hkt, canonLoop_length]; exact hk0
+                            rw [readHeader]
+                            simp only [hcont]
+                            have hne : ¬ ((k ++ x :: rtrim v).length = 0) := by simp
+                            simp only [hne, if_false, splitAt1_append 58 k x (rtrim v) hx hnoc,
+                              hread0 g hlen, hkey, value_agree]
+                            simp [canonF]
+                    · simp [hvv] at h
+                  · simp [hkt] at h
+
+/-! ### field names: canonical form vs lower case -/
+
+theorem lower_canonByte (u : Bool) (c : UInt8) : lowerByte (canonByte u c) = lowerByte c := by
+  revert c; apply byte_all; cases u <;> decide +kernel
+
+theorem canonByte_lower (u : Bool) (c : UInt8) : canonByte u (lowerByte c) = canonByte u c := by
+  revert c; apply byte_all; cases u <;> decide +kernel
+
+theorem asciiLower_canonLoop : ∀ (k : Bytes) (u : Bool), asciiLower (canonLoop k u) = asciiLower k := by
+  intro k
+  induction k with
+  | nil => intro u; rfl
+  | cons c t ih =>
+    intro u
+    simp only [canonLoop, asciiLower, List.map_cons, lower_canonByte]
+    congr 1
+    exact ih _
+
+theorem canonLoop_asciiLower : ∀ (k : Bytes) (u : Bool), canonLoop (asciiLower k) u = canonLoop k u := by
+  intro k
+  induction k with
+  | nil => intro u; rfl
+  | cons c t ih =>
+    intro u
+    simp only [asciiLower, List.map_cons, canonLoop, canonByte_lower]
+    congr 1
+    exact ih _
+
+theorem asciiLower_canonKey (k : Bytes) (h : k.all C23.isTchar = true) :
+    asciiLower (canonKey k) = asciiLower k := by
+  rw [canonKey_of_tchar k h, asciiLower_canonLoop]
+
+theorem name_iff (k K : Bytes) (h : k.all C23.isTchar = true) (hK : canonLoop (asciiLower K) true = K) :
+    canonKey k = K ↔ asciiLower k = asciiLower K := by
+  constructor
+  · intro e; rw [← e, asciiLower_canonKey k h]
+  · intro e; rw [canonKey_of_tchar k h, ← canonLoop_asciiLower, e, hK]
+
+theorem hK_TE : canonLoop (asciiLower sTE) true = sTE := by decide +kernel
+theorem hK_CL : canonLoop (asciiLower sCL) true = sCL := by decide +kernel
+
+theorem valuesOf_agree (K : Bytes) (hK : canonLoop (asciiLower K) true = K) :
+    ∀ raw : List (Bytes × Bytes), (∀ p ∈ raw, p.1.all C23.isTchar = true) →
+    valuesOf (raw.map canonF) K = valuesOf (raw.map lowerF) (asciiLower K) := by
+  intro raw
+  induction raw with
+  | nil => intro _; rfl
+  | cons p t ih =>
+    intro h
+    have hp := h p (by simp)
+    have iht := ih (fun q hq => h q (by simp [hq]))
+    unfold valuesOf at iht ⊢
+    simp only [List.map_cons, List.filter_cons, canonF, lowerF]
+    by_cases e : canonKey p.1 = K
+    · have e2 := (name_iff p.1 K hp hK).mp e
+      simp only [e, e2, decide_true, if_true, List.map_cons]
+      rw [iht]
+    · have e2 : ¬ asciiLower p.1 = asciiLower K := fun x => e ((name_iff p.1 K hp hK).mpr x)
+      simp only [e, e2, decide_false, Bool.false_eq_true, if_false]
+      exact iht
+
+/-! ### Go's TrimSpace / ToLower on plain ASCII values -/
+
+theorem plain_space (b : UInt8) : isPlainByte b = true → isAsciiSpace b = isSPHT b := by
+  revert b; apply byte_all; decide +kernel
+
+theorem plain_lt (b : UInt8) : isPlainByte b = true → b.toNat < 128 := by
+  revert b; apply byte_all; decide +kernel
+
+theorem mem_dropWhile {α} (p : α → Bool) : ∀ (l : List α) (x : α), x ∈ l.dropWhile p → x ∈ l := by
+  intro l
+  induction l with
+  | nil => intro x h; simpa using h
+  | cons y t ih =>
+    intro x h
+    simp only [List.dropWhile_cons] at h
+    by_cases hy : p y = true
+    · simp only [hy, if_true] at h; exact List.mem_cons_of_mem _ (ih x h)
+    · simp only [hy] at h; exact h
+
+theorem uni_heads : uniSpaces.all (fun u => match u.head? with | some x => decide (x.toNat ≥ 128) | none => false) = true := by
+  decide +kernel
+theorem uni_lasts : uniSpaces.all (fun u => match u.reverse.head? with | some x => decide (x.toNat ≥ 128) | none => false) = true := by
+  decide +kernel
+
+theorem isPrefixOf_head (u : Bytes) (b : UInt8) (t : Bytes) (h : u.isPrefixOf (b :: t) = true) :
+    u = [] ∨ u.head? = some b := by
+  cases u with
+  | nil => left; rfl
+  | cons u0 u' =>
+    right
+    simp only [List.isPrefixOf, Bool.and_eq_true, beq_iff_eq] at h
+    simp [h.1]
+
+theorem find_left_none (b : UInt8) (t : Bytes) (hb : b.toNat < 128) :
+    uniSpaces.find? (fun u => u.isPrefixOf (b :: t)) = none := by
+  rw [List.find?_eq_none]
+  intro u hu hp
+  have hh := (List.all_eq_true.mp uni_heads) u hu
+  rcases isPrefixOf_head u b t (by simpa using hp) with e | e
+  · subst e; simp at hh
+  · rw [e] at hh; simp at hh; omega
+
+theorem find_right_none (b : UInt8) (t : Bytes) (hb : b.toNat < 128) :
+    uniSpaces.find? (fun u => u.reverse.isPrefixOf (b :: t)) = none := by
+  rw [List.find?_eq_none]
+  intro u hu hp
+  have hh := (List.all_eq_true.mp uni_lasts) u hu
+  rcases isPrefixOf_head u.reverse b t (by simpa using hp) with e | e
+  · rw [e] at hh; simp at hh
+  · rw [e] at hh; simp at hh; omega
+
+theorem trimLeftGo_plain : ∀ (f : Nat) (s : Bytes), s.all isPlainByte = true → s.length < f →
+    trimLeftGo f s = s.dropWhile isSPHT := by
+  intro f
+  induction f with
+  | zero => intro s _ h; omega
+  | succ f ih =>
+    intro s hs hf
+    cases s with
+    | nil => rfl
+    | cons b t =>
+      have hb : isPlainByte b = true := (List.all_eq_true.mp hs) b (by simp)
+      have ht : t.all isPlainByte = true := by
+        rw [List.all_eq_true] at hs ⊢; exact fun x hx => hs x (by simp [hx])
+      simp only [trimLeftGo, plain_space b hb, List.dropWhile_cons]
+      by_cases hsp : isSPHT b = true
+      · simp only [hsp, if_true]
+        exact ih t ht (by simp at hf; omega)
+      · simp only [hsp, Bool.false_eq_true, if_false, find_left_none b t (plain_lt b hb)]
+
+theorem trimRightGo_plain : ∀ (f : Nat) (s : Bytes), s.all isPlainByte = true → s.length < f →
+    trimRightGo f s = s.dropWhile isSPHT := by
+  intro f
+  induction f with
+  | zero => intro s _ h; omega
+  | succ f ih =>
+    intro s hs hf
+    cases s with
+    | nil => rfl
+    | cons b t =>
+      have hb : isPlainByte b = true := (List.all_eq_true.mp hs) b (by simp)
+      have ht : t.all isPlainByte = true := by
+        rw [List.all_eq_true] at hs ⊢; exact fun x hx => hs x (by simp [hx])
+      simp only [trimRightGo, plain_space b hb, List.dropWhile_cons]
+      by_cases hsp : isSPHT b = true
+      · simp only [hsp, if_true]
+        exact ih t ht (by simp at hf; omega)
+      · simp only [hsp, Bool.false_eq_true, if_false, find_right_none b t (plain_lt b hb)]
+
+theorem goTrimSpace_plain (s : Bytes) (hs : s.all isPlainByte = true) : goTrimSpace s = trim s := by
+  unfold goTrimSpace
+  simp only []
+  rw [trimLeftGo_plain _ s hs (by omega)]
+  have h2 : (s.dropWhile isSPHT).reverse.all isPlainByte = true := by
+    rw [List.all_eq_true] at hs ⊢
+    intro x hx
+    exact hs x (mem_dropWhile _ _ _ (by simpa using hx))
+  rw [trimRightGo_plain _ _ h2 (by simp)]
+  rfl
+
+theorem goToLower_plain : ∀ s : Bytes, s.all isPlainByte = true → goToLower s = asciiLower s := by
+  intro s
+  induction s with
+  | nil => intro _; rfl
+  | cons b t ih =>
+    intro hs
+    have hb : isPlainByte b = true := (List.all_eq_true.mp hs) b (by simp)
+    have ht : t.all isPlainByte = true := by
+      rw [List.all_eq_true] at hs ⊢; exact fun x hx => hs x (by simp [hx])
+    have hlt := plain_lt b hb
+    have h1 : b ≠ 0xE2 := by intro e; subst e; revert hlt; decide
+    have h2 : b ≠ 0xC4 := by intro e; subst e; revert hlt; decide
+    rw [goToLower]
+    · simp only [asciiLower, List.map_cons, lowerByte]
+      rw [ih ht]; rfl
+    · intro t' e _; exact h1 e
+    · intro t' e _; exact h2 e
+
+/-! ### framing decision -/
+
+theorem mem_valuesOf_lower : ∀ (raw : List (Bytes × Bytes)) (N v : Bytes),
+    v ∈ valuesOf (raw.map lowerF) N → ∃ p ∈ raw, p.2 = v := by
+  intro raw N v h
+  unfold valuesOf at h
+  simp only [List.mem_map, List.mem_filter] at h
+  obtain ⟨f, ⟨⟨p, hp, hpf⟩, _⟩, hv⟩ := h
+  exact ⟨p, hp, by rw [← hv, ← hpf]; rfl⟩
+
+theorem splitComma_ne_nil : ∀ v : Bytes, splitComma v ≠ [] := by
+  intro v
+  induction v with
+  | nil => simp [splitComma]
+  | cons b t ih =>
+    rw [splitComma]
+    cases h : splitComma t with
+    | nil => simp
+    | cons a r => by_cases hb : b.toNat = 44 <;> simp [hb]
+
+theorem splitComma_mem : ∀ (v e : Bytes), e ∈ splitComma v → ∀ x ∈ e, x ∈ v := by
+  intro v
+  induction v with
+  | nil => intro e he x hx; simp [splitComma] at he; subst he; simp at hx
+  | cons b t ih =>
+    intro e he x hx
+    rw [splitComma] at he
+    cases h : splitComma t with
+    | nil => exact absurd h (splitComma_ne_nil t)
+    | cons a r =>
+      simp only [h] at he
+      by_cases hb : b.toNat = 44
+      · simp only [hb, if_true] at he
+        rcases List.mem_cons.mp he with rfl | he
+        · simp at hx
+        · exact List.mem_cons_of_mem _ (ih e (by rw [h]; exact he) x hx)
+      · simp only [hb, if_false] at he
+        rcases List.mem_cons.mp he with rfl | he
+        · rcases List.mem_cons.mp hx with rfl | hx
+          · simp
+          · exact List.mem_cons_of_mem _ (ih a (by rw [h]; simp) x hx)
+        · exact List.mem_cons_of_mem _ (ih e (by rw [h]; simp [he]) x hx)
+
+theorem trim_plain (e : Bytes) (h : e.all isPlainByte = true) : (trim e).all isPlainByte = true := by
+  rw [List.all_eq_true] at h ⊢
+  intro x hx
+  unfold trim at hx
+  have : x ∈ (e.dropWhile isSPHT).reverse := mem_dropWhile _ _ _ (by simpa using hx)
+  exact h x (mem_dropWhile _ _ _ (by simpa using this))
+
+def gcode (e : Bytes) : Bytes := asciiLower (trim e)
+
+theorem go_norm (e : Bytes) (h : e.all isPlainByte = true) : goToLower (goTrimSpace e) = gcode e := by
+  rw [goTrimSpace_plain e h, goToLower_plain _ (trim_plain e h)]; rfl
+
+theorem teLoop_plain : ∀ (es : List Bytes) (n : Nat),
+    (∀ e ∈ es, e.all isPlainByte = true ∧ gcode e ≠ sIdentity) →
+    teLoop es n = if es.all (fun e => decide (gcode e = sChunked)) = true then some (n + es.length) else none := by
+  intro es
+  induction es with
+  | nil => intro n _; simp [teLoop]
+  | cons e t ih =>
+    intro n h
+    obtain ⟨hp, hid⟩ := h e (by simp)
+    rw [teLoop]
+    simp only [go_norm e hp, hid, if_false]
+    by_cases hc : gcode e = sChunked
+    · simp only [hc, ne_eq, not_true_eq_false, if_false, List.all_cons, decide_true, Bool.true_and]
+      rw [ih (n + 1) (fun x hx => h x (by simp [hx]))]
+      simp only [List.length_cons]
+      split <;> simp <;> omega
+    · simp [hc]
+
+theorem parseUint63_some (s : Bytes) (n : Nat) (h : parseUint63 s = some n) :
+    s.length ≠ 0 ∧ s.all isDigit = true ∧ n = decNat s ∧ n < 2 ^ 63 := by
+  unfold parseUint63 at h
+  split at h
+  · cases h
+  · rename_i hc
+    split at h
+    · injection h with h
+      subst h
+      refine ⟨fun h0 => hc (Or.inl h0), ?_, rfl, by assumption⟩
+      cases ha : s.all isDigit with
+      | true => rfl
+      | false => exact absurd (Or.inr (by simp [ha])) hc
+    · cases h
+
+theorem digit_facts (b : UInt8) : isDigit b = true → b.toNat < 128 ∧ b ≠ 43 ∧ b ≠ 45 := by
+  revert b; apply byte_all; decide +kernel
+
+theorem goTrimSpace_nil : goTrimSpace [] = [] := by decide +kernel
+
+theorem framing_agree (raw : List (Bytes × Bytes))
+    (hraw : ∀ p ∈ raw, p.1.length ≠ 0 ∧ p.1.all C23.isTchar = true ∧ trim p.2 = p.2)
+    (hclean : cleanFields (raw.map lowerF) = true) (fr : Framing)
+    (h : framing (raw.map canonF) = some fr) : rfcFraming 1 (raw.map lowerF) = .ok fr := by
+  have hTE : valuesOf (raw.map canonF) sTE = valuesOf (raw.map lowerF) lTE :=
+    valuesOf_agree sTE hK_TE raw (fun p hp => (hraw p hp).2.1)
+  have hCL : valuesOf (raw.map canonF) sCL = valuesOf (raw.map lowerF) lCL :=
+    valuesOf_agree sCL hK_CL raw (fun p hp => (hraw p hp).2.1)
+  unfold cleanFields at hclean
+  simp only [Bool.and_eq_true, decide_eq_true_eq, List.all_eq_true] at hclean
+  obtain ⟨⟨⟨hte1, hcl1⟩, hteP⟩, hclP⟩ := hclean
+  have htrimmed : ∀ N v, v ∈ valuesOf (raw.map lowerF) N → trim v = v := by
+    intro N v hv
+    obtain ⟨p, hp, e⟩ := mem_valuesOf_lower raw N v hv
+    rw [← e]; exact (hraw p hp).2.2
+  unfold framing fixTE at h
+  rw [hTE] at h
+  unfold rfcFraming
+  simp only []
+  cases htes : valuesOf (raw.map lowerF) lTE with
+  | nil =>
+    rw [htes] at h
+    simp only [] at h
+    -- Content-Length path
+    unfold fixLen at h
+    rw [hCL] at h
+    cases hcls : valuesOf (raw.map lowerF) lCL with
+    | nil =>
+      rw [hcls] at h
+      simp only [List.head?_nil, Option.getD_none, goTrimSpace_nil, List.length_nil] at h
+      simp only [not_true_eq_false, if_false, if_true] at h
+      split at h
+      · injection h with h; subst h; rfl
+      · cases h
+    | cons c rest =>
+      rw [hcls] at hcl1 hclP h
+      have hrest : rest = [] := by
+        cases rest with
+        | nil => rfl
+        | cons _ _ => simp at hcl1
+      subst hrest
+      obtain ⟨hcp, hcne⟩ := hclP c (by simp)
+      have hct : trim c = c := htrimmed lCL c (by rw [hcls]; simp)
+      have hg : goTrimSpace c = c := by rw [goTrimSpace_plain c (List.all_eq_true.mpr hcp), hct]
+      simp only [List.all_nil, List.head?_cons, Option.getD_some, hg] at h
+      simp only [not_true_eq_false, if_false, hcne] at h
+      cases hpu : parseUint63 c with
+      | none => simp [hpu] at h
+      | some n =>
+        simp only [hpu] at h
+        obtain ⟨_, hdig, hn, hlt⟩ := parseUint63_some c n hpu
+        have hfr : fr = .length n := by
+          split at h
+          · injection h with h; exact h.symm
+          · cases h
+        subst hfr
+        have hd := List.all_eq_true.mp hdig
+        have hhead : ∃ c0 c', c = c0 :: c' := by
+          cases c with
+          | nil => simp at hcne
+          | cons c0 c' => exact ⟨c0, c', rfl⟩
+        obtain ⟨c0, c', hcc⟩ := hhead
+        have hc0 := digit_facts c0 (hd c0 (by rw [hcc]; simp))
+        have e1 : ([c].any fun c => c.any fun b => decide (b.toNat ≥ 128)) = false := by
+          simp only [List.any_cons, List.any_nil, Bool.or_false]
+          rw [List.any_eq_false]
+          intro b hb
+          have := (digit_facts b (hd b hb)).1
+          simp; omega
+        have e2 : ([c].any fun c => decide (c.head? = some 43 ∨ c.head? = some 45)) = false := by
+          simp [hcc, hc0.2.1, hc0.2.2]
+        have e3 : ([c].any fun c => decide (c.length = 0)) = false := by
+          simp only [List.any_cons, List.any_nil, Bool.or_false, decide_eq_false_iff_not]; exact hcne
+        have e4 : ([c].any fun c => decide (¬ c.all isDigit = true)) = false := by
+          simp only [List.any_cons, List.any_nil, Bool.or_false, hdig]; simp
+        have e5 : ¬ (decNat c ≥ 2 ^ 63) := by omega
+        simp only [e1, e2, e3, e4, e5, List.any_nil, Bool.false_eq_true, if_false]
+        rw [hn]; rfl
+  | cons t0 more =>
+    rw [htes] at hte1 hteP h
+    have hmore : more = [] := by
+      cases more with
+      | nil => rfl
+      | cons _ _ => simp at hte1
+    subst hmore
+    obtain ⟨htp, hni⟩ := hteP t0 (by simp)
+    simp only [] at h
+    have hes : ∀ e ∈ splitComma t0, e.all isPlainByte = true ∧ gcode e ≠ sIdentity := by
+      intro e he
+      refine ⟨?_, ?_⟩
+      · rw [List.all_eq_true]
+        exact fun x hx => htp x (splitComma_mem t0 e he x hx)
+      · unfold noIdentity at hni
+        rw [List.all_eq_true] at hni
+        have := hni e he
+        simpa [gcode] using this
+    rw [teLoop_plain _ 0 hes] at h
+    by_cases hall : (splitComma t0).all (fun e => decide (gcode e = sChunked)) = true
+    · simp only [hall, if_true, Nat.zero_add] at h
+      by_cases hlen : (splitComma t0).length > 1
+      · simp [hlen] at h
+      · simp only [hlen, if_false] at h
+        have hone : ∃ e, splitComma t0 = [e] := by
+          cases hs : splitComma t0 with
+          | nil => exact absurd hs (splitComma_ne_nil t0)
+          | cons e r =>
+            cases r with
+            | nil => exact ⟨e, rfl⟩
+            | cons _ _ => rw [hs] at hlen; simp at hlen
+        obtain ⟨e, he⟩ := hone
+        rw [he] at hall h
+        have hce : gcode e = sChunked := by simpa using hall
+        have hfr : fr = .chunked := by
+          simp at h
+          exact h.2.symm
+        subst hfr
+        have hcod : (([t0].map splitComma).flatten.map fun e => asciiLower (trim e)).filter
+            (fun e => decide (e.length > 0)) = [sChunked] := by
+          simp only [List.map_cons, List.map_nil, List.flatten_cons, List.flatten_nil, List.append_nil, he]
+          have : asciiLower (trim e) = sChunked := hce
+          rw [this]; decide
+        simp only [hcod, if_true]
+        rfl
+    · simp [hall] at h
+
+/-! ### chunked body: with strict size lines the reader's result is the strict RFC decoder's result -/
+
+theorem ws_is_cr (ws r : Bytes) (a b : UInt8) (r2 : Bytes) (hws : ∀ x ∈ ws, C23.isBlankCR x = true)
+    (h : ws ++ 10 :: r = a :: b :: r2) (ha : a.toNat = 13) (hb : b.toNat = 10) : ws = [a] ∧ r2 = r := by
+  cases ws with
+  | nil =>
+    simp at h
+    have : a.toNat = 10 := by rw [← h.1]; rfl
+    omega
+  | cons w ws' =>
+    simp only [List.cons_append, List.cons.injEq] at h
+    obtain ⟨hw, h2⟩ := h
+    cases ws' with
+    | nil =>
+      simp at h2
+      exact ⟨by rw [hw], h2.2.symm⟩
+    | cons w2 ws'' =>
+      simp only [List.cons_append, List.cons.injEq] at h2
+      have hw2 := hws w2 (by simp)
+      rw [h2.1] at hw2
+      unfold C23.isBlankCR at hw2
+      simp at hw2; omega
+
+theorem chunked_strict : ∀ (f : Nat) (s : Bytes), (C23.decodeAux f s).err = .eof →
+    ∀ f3 r2, strictChunks f3 s = some r2 →
+    ∀ f2, s.length < f2 →
+      C23.rfcAux false f2 s = .ok (C23.decodeAux f s).body (C23.decodeAux f s).rest ∧
+      r2 = (C23.decodeAux f s).rest := by
+  intro f
+  induction f with
+  | zero => intro s h; simp [C23.decodeAux] at h
+  | succ f ih =>
+    intro s h f3 r2 hst f2 hf2
+    cases f2 with
+    | zero => omega
+    | succ g =>
+      cases f3 with
+      | zero => simp [strictChunks] at hst
+      | succ g3 =>
+      simp only [C23.decodeAux] at h ⊢
+      cases hrl : C23.readLine s with
+      | error e =>
+        simp only [hrl] at h
+        exact absurd h (C23.readLine_err_ne_eof s e hrl)
+      | ok p =>
+        obtain ⟨line, r⟩ := p
+        simp only [hrl] at h ⊢
+        cases hp : C23.parseHexUint line with
+        | error e =>
+          simp only [hp] at h
+          exact absurd h (C23.parseHexUint_err_ne_eof line e hp)
+        | ok n =>
+          simp only [hp] at h ⊢
+          obtain ⟨ws, hs, hws⟩ := C23.sizeLine_shape s line r n hrl hp
+          obtain ⟨h1, h16, hall, hn⟩ := (C23.parseHex_exact line n).mp hp
+          obtain ⟨htk, hdr⟩ := C23.take_drop_hex line ws r hall hws
+          simp only [← hs] at htk hdr
+          have hl0 : ¬ line.length = 0 := by omega
+          have hl16 : ¬ line.length > 16 := by omega
+          -- the strict walker pins the line end to CRLF
+          rw [strictChunks] at hst
+          simp only [htk, hdr] at hst
+          cases hwr : ws ++ 10 :: r with
+          | nil => simp at hwr
+          | cons a t =>
+            cases t with
+            | nil => rw [hwr] at hst; simp at hst
+            | cons b r2' =>
+              rw [hwr] at hst
+              simp only [] at hst
+              by_cases hab : a.toNat = 13 ∧ b.toNat = 10
+              · simp only [hab, and_self, if_true] at hst
+                obtain ⟨hwsa, hr2⟩ := ws_is_cr ws r a b r2' hws hwr hab.1 hab.2
+                subst hr2
+                have hle : C23.lineEnd false (ws ++ 10 :: r2') = some r2' := by
+                  rw [hwsa]
+                  have : (10 : UInt8).toNat = 10 := rfl
+                  simp [C23.lineEnd, hab.1]
+                rw [C23.rfcAux]
+                simp only [htk, hdr, hl0, hl16, if_false, List.length_append, List.length_cons,
+                  C23.skipExt_noext ws r2' hws, hle, ← hn]
+                rw [← hn] at hst
+                by_cases hz : n.toNat = 0
+                · simp only [hz, if_true] at h hst ⊢
+                  injection hst with hst
+                  exact ⟨trivial, hst.symm⟩
+                · simp only [hz, if_false] at h hst ⊢
+                  by_cases hlt : r2'.length < n.toNat
+                  · simp only [hlt, if_true] at h; cases h
+                  · simp only [hlt, if_false] at h ⊢
+                    cases hd : r2'.drop n.toNat with
+                    | nil => simp only [hd] at h; cases h
+                    | cons a' t' =>
+                      cases t' with
+                      | nil => simp only [hd] at h; cases h
+                      | cons b' r' =>
+                        simp only [hd] at h ⊢
+                        by_cases hc : a'.toNat = 13 ∧ b'.toNat = 10
+                        · simp only [hc, and_self, if_true] at h ⊢
+                          have hlen : r'.length + 2 ≤ r2'.length := by
+                            have := congrArg List.length hd
+                            simp at this; omega
+                          have hrlen : r2'.length + 2 ≤ s.length := by rw [hs]; simp; omega
+                          have hdrop : r2'.drop (n.toNat + 2) = r' := by
+                            rw [← List.drop_drop, hd]; rfl
+                          rw [hdrop] at hst
+                          obtain ⟨i1, i2⟩ := ih r' h g3 r2 hst g (by omega)
+                          rw [i1]
+                          exact ⟨rfl, i2⟩
+                        · simp only [hc, if_false] at h; cases h
+              · simp [hab] at hst
+
+/-! ### assembling the layers -/
+
+theorem safe_vchar (b : UInt8) : isSafeUriByte b = true → (33 ≤ b.toNat ∧ b.toNat ≤ 126) := by
+  revert b; apply byte_all; decide +kernel
+
+theorem uri_accept (t : Bytes) (h : uriClass t = .accept) :
+    t.length ≠ 0 ∧ t.all (fun b => decide (33 ≤ b.toNat ∧ b.toNat ≤ 126)) = true := by
+  unfold uriClass at h
+  split at h
+  · cases h
+  · split at h
+    · cases h
+    · rename_i hl
+      refine ⟨hl, ?_⟩
+      split at h
+      · rename_i e; subst e; decide
+      · split at h
+        · rename_i hs
+          rw [List.all_eq_true]
+          intro b hb
+          have := safe_vchar b ((List.all_eq_true.mp hs.2) b hb)
+          simpa using this
+        · cases h
+
+theorem map_length_ne (x : Except String Nat) : x.map Framing.length ≠ .ok .chunked := by
+  cases x <;> simp [Except.map]
+
+theorem rfcFraming_chunked_tes (m : Nat) (fs : List Field) (h : rfcFraming m fs = .ok .chunked) :
+    (valuesOf fs lTE).length ≠ 0 := by
+  intro h0
+  have : valuesOf fs lTE = [] := List.eq_nil_of_length_eq_zero h0
+  unfold rfcFraming at h
+  simp only [this] at h
+  exact absurd h (map_length_ne _)
+
+theorem trailer_agree (r2 : Bytes) (tfs : List Field) (r3 rest : Bytes)
+    (hf : rfcFields (r2.length + 1) false r2 = .ok (tfs, r3)) (ht : readTrailer r2 = some rest) : rest = r3 := by
+  obtain ⟨raw, _, _, hread⟩ := fields_agree _ _ _ _ _ hf
+  have hrh := hread (r2.length + 1) (by omega)
+  unfold readTrailer at ht
+  split at ht
+  · rename_i r''
+    injection ht with ht
+    -- the RFC field reader on CRLF … returns immediately
+    have : rfcFields ((13 :: 10 :: r'' : Bytes).length + 1) false (13 :: 10 :: r'') = .ok ([], r'') := by
+      rw [rfcFields]
+      have h1 : (13 : UInt8).toNat = 13 := rfl
+      have h2 : (10 : UInt8).toNat = 10 := rfl
+      simp [rfcLine, isSPHT, h1, h2]
+    rw [this] at hf
+    injection hf with hf
+    injection hf with _ hf
+    rw [← ht, hf]
+  · split at ht
+    · cases ht
+    · split at ht
+      · cases ht
+      · rw [hrh] at ht
+        simp at ht
+        exact ht.symm
+
+theorem same_boundaries (s : Bytes) (hc : cleanRequest s = true) (q : Req) (r : Bytes)
+    (hh : readRequestHead s = some (q, r)) (body rest : Bytes)
+    (hb : readBody q.framing r = (body, some rest)) :
+    rfcRequest s = .ok (⟨q.method, q.target, q.keys.map asciiLower, body⟩, rest) := by
+  unfold cleanRequest at hc
+  cases hl : rfcLine s with
+  | error e => simp [hl] at hc
+  | ok p0 =>
+    obtain ⟨line, r0⟩ := p0
+    simp only [hl] at hc
+    have hrl := readLine_of_rfcLine s line r0 hl
+    cases hs1 : splitAt1 32 line with
+    | none => simp [hs1] at hc
+    | some p1 =>
+      obtain ⟨m, rest1⟩ := p1
+      simp only [hs1] at hc
+      cases hs2 : splitAt1 32 rest1 with
+      | none => simp [hs2] at hc
+      | some p2 =>
+        obtain ⟨t, p⟩ := p2
+        simp only [hs2] at hc
+        cases hf : rfcFields (r0.length + 1) true r0 with
+        | error e => simp [hf] at hc
+        | ok p3 =>
+          obtain ⟨fs, r'⟩ := p3
+          simp only [hf, Bool.and_eq_true, decide_eq_true_eq] at hc
+          obtain ⟨⟨⟨hm0, hmt⟩, hp⟩, hcf, hcb⟩ := hc
+          subst hp
+          obtain ⟨raw, hfs, hraw, hread⟩ := fields_agree _ _ _ _ _ hf
+          have hrh := hread (r0.length + 1) (by omega)
+          -- the code's path
+          unfold readRequestHead at hh
+          simp only [hrl, hs1, hs2] at hh
+          cases hv : parseVersion sHTTP11 with
+          | none => simp [hv] at hh
+          | some vv =>
+            simp only [hv] at hh
+            by_cases hu : uriClass t = .accept
+            · simp only [hu, ne_eq, not_true_eq_false, if_false, hrh] at hh
+              cases hfr : framing (raw.map canonF) with
+              | none => simp [hfr] at hh
+              | some fr =>
+                simp only [hfr] at hh
+                injection hh with hh
+                injection hh with hq hr
+                subst hq; subst hr
+                have hrf : rfcFraming 1 fs = .ok fr := by
+                  rw [hfs]; exact framing_agree raw hraw (by rw [← hfs]; exact hcf) fr hfr
+                obtain ⟨ht0, htv⟩ := uri_accept t hu
+                have hnames : ((raw.map canonF).map (·.name)).map asciiLower = fs.map (·.name) := by
+                  rw [hfs]
+                  simp only [List.map_map]
+                  apply List.map_congr_left
+                  intro p hp
+                  simp only [Function.comp, canonF, lowerF]
+                  exact asciiLower_canonKey p.1 (hraw p hp).2.1
+                -- the RFC parser's path
+                unfold rfcRequest
+                simp only [hl, hs1, hs2]
+                have c1 : ¬ (m.length = 0 ∨ ¬ m.all C23.isTchar = true) := by
+                  intro h; rcases h with h | h
+                  · exact hm0 h
+                  · exact h hmt
+                have c2 : ¬ (t.length = 0 ∨ ¬ t.all (fun b => decide (33 ≤ b.toNat ∧ b.toNat ≤ 126)) = true) := by
+                  intro h; rcases h with h | h
+                  · exact ht0 h
+                  · exact h htv
+                have c3 : ¬ ¬ (sHTTP11.length = 8 ∧ sHTTP11.take 7 = sHTTP ++ [49, 46] ∧
+                    (sHTTP11.drop 7).all isDigit = true) := by decide
+                have c4 : decNat (sHTTP11.drop 7) = 1 := by decide
+                simp only [c1, c2, c3, if_false, c4, hf, hrf]
+                cases fr with
+                | length n =>
+                  simp only [readBody] at hb
+                  by_cases hlt : r'.length < n
+                  · simp [hlt] at hb
+                  · simp only [hlt, if_false] at hb ⊢
+                    injection hb with hb1 hb2
+                    injection hb2 with hb2
+                    rw [← hb1, ← hb2, hnames]
+                | chunked =>
+                  simp only [readBody] at hb
+                  by_cases he : (C23.decode r').err = .eof
+                  · simp only [he, if_true] at hb
+                    injection hb with hb1 hb2
+                    have hte := rfcFraming_chunked_tes 1 fs hrf
+                    unfold cleanBody at hcb
+                    simp only [hte, decide_false, Bool.false_or] at hcb
+                    cases hsc : strictChunks (r'.length + 1) r' with
+                    | none => simp [hsc] at hcb
+                    | some r2 =>
+                      simp only [hsc] at hcb
+                      cases htf : rfcFields (r2.length + 1) false r2 with
+                      | error e => simp [htf] at hcb
+                      | ok p4 =>
+                        obtain ⟨tfs, r3⟩ := p4
+                        obtain ⟨i1, i2⟩ := chunked_strict (r'.length + 1) r' he _ r2 hsc (r'.length + 1) (by omega)
+                        have hd : C23.rfcDechunk false r' = .ok (C23.decode r').body (C23.decode r').rest := i1
+                        subst i2
+                        have hrest := trailer_agree _ tfs r3 rest htf hb2
+                        have htf' : rfcFields ((C23.decode r').rest.length + 1) false (C23.decode r').rest =
+                            .ok (tfs, r3) := htf
+                        simp only [hd, htf']
+                        rw [← hb1, hrest, hnames]
+                  · simp [he] at hb
+            · simp [hu] at hh
 
 end BfeVerif.C24
